@@ -133,7 +133,10 @@ def run_property(prop, tier='quick', explain=None, quiet=False, write=True):
     def p(line):
         out.append(line)
         if not quiet:
-            print(line, flush=True)
+            try:
+                print(line, flush=True)
+            except BrokenPipeError:  # the reader went away (e.g. `| head`): keep analysing, the exit code still counts
+                pass
 
     try:
         import sa.rules  # noqa: F401  (registers everything)
